@@ -103,3 +103,110 @@ def cds_spec(draw, max_k=5, frameshift_prob=4, ambiguous_prob=6, max_len=10, pad
         alphabet = "ACGTNRY"
     g = "".join(draw(st.lists(st.sampled_from(alphabet), min_size=n, max_size=n)))
     return {"blocks": blocks, "strand": strand, "offset": offset, "frames": frames, "frameshift": shifted, "genome": g}
+
+
+# ------------------------------------------------------------------------------------------------
+# transcripts / features / genes
+
+IDENT = st.text(alphabet="abcdefghijklmnopqrstuvwxyzABCDEFGHIJKLMNOPQRSTUVWXYZ0123456789_.", min_size=1, max_size=8)
+CODING_BIOTYPES = ["protein_coding", "mRNA"]
+NONCODING_BIOTYPES = ["ncRNA", "tRNA", "rRNA", "lncRNA", "misc_RNA", "snoRNA", "pseudogene", "transcript"]
+
+
+@st.composite
+def simple_qualifiers(draw, max_keys=3):
+    keys = draw(st.lists(st.sampled_from(["note", "color", "evidence", "db_xref", "inference", "xkey", "identity", "names"]), max_size=max_keys, unique=True))
+    q = {}
+    for k in keys:
+        vals = draw(st.lists(st.text(alphabet="abcdefghijklmnopqrstuvwxyz0123456789 _-", min_size=1, max_size=8), min_size=1, max_size=3, unique=True))
+        q[k] = vals
+    return q
+
+
+@st.composite
+def transcript_spec(draw, max_exons=5, coding=None, max_len=10, zero_gap_cds=True, strand=None, start_min=0, start_max=8,
+                    frameshift_prob=8, with_ids=True, qualifiers=True):
+    """exon layout + optional CDS chosen as a contiguous run [i,j) in transcript coordinates (boundary-biased)"""
+    from harness import refmodel as rm
+
+    exons = draw(layout(max_k=max_exons, allow_empty=False, allow_adjacent=False, allow_overlap=False, max_len=max_len,
+                        max_gap=6, max_start=start_max))
+    if start_min:
+        exons = [[s + start_min, e + start_min] for s, e in exons]
+    strand = strand or draw(st.sampled_from(["+", "-"]))
+    T = rm.positions(exons, strand)
+    n = len(T)
+    is_coding = draw(st.booleans()) if coding is None else coding
+    sp = {"exons": exons, "strand": strand}
+    if is_coding:
+        bounds = [0, n]
+        off = 0
+        for s, e in (exons if strand == "+" else list(reversed(exons))):
+            off += e - s
+            bounds.append(off)
+        mode = draw(st.integers(0, 7))
+        if mode == 0:
+            i, j = 0, n
+        elif mode == 1:
+            i, j = 0, draw(st.integers(1, n))
+        elif mode == 2:
+            i, j = draw(st.integers(0, n - 1)), n
+        elif mode == 3:
+            a, b = draw(st.sampled_from(bounds)), draw(st.sampled_from(bounds))
+            i, j = min(a, b), max(a, b)
+        else:
+            a, b = draw(st.integers(0, n)), draw(st.integers(0, n))
+            i, j = min(a, b), max(a, b)
+        if i == j:
+            if j < n:
+                j += 1
+            else:
+                i -= 1
+        cset = set(T[i:j])
+        cds_blocks = []
+        for s, e in exons:
+            ps = [p for p in range(s, e) if p in cset]
+            if ps:
+                cds_blocks.append([min(ps), max(ps) + 1])
+        if zero_gap_cds and draw(st.integers(0, 5)) == 0:
+            # split one CDS block into two adjacent blocks (0-bp gap)
+            cand = [k for k, b in enumerate(cds_blocks) if b[1] - b[0] >= 2]
+            if cand:
+                k = draw(st.sampled_from(cand))
+                b = cds_blocks[k]
+                cut = draw(st.integers(b[0] + 1, b[1] - 1))
+                cds_blocks[k:k + 1] = [[b[0], cut], [cut, b[1]]]
+        offset = draw(st.sampled_from([0, 0, 0, 1, 2]))
+        frames = rm.frames_from_offset(cds_blocks, strand, offset)
+        fs = False
+        if len(cds_blocks) > 1 and draw(st.integers(0, frameshift_prob - 1)) == 0:
+            k = draw(st.integers(0, len(cds_blocks) - 1))
+            frames[k] = (frames[k] + draw(st.sampled_from([1, 2]))) % 3
+            fs = True
+        sp.update({"cds": cds_blocks, "frames": frames, "offset": offset, "frameshift": fs, "cds_i": i, "cds_j": j})
+    if with_ids:
+        sp["transcript_id"] = draw(st.one_of(st.none(), IDENT))
+        sp["transcript_symbol"] = draw(st.one_of(st.none(), IDENT))
+        sp["transcript_type"] = draw(st.sampled_from(CODING_BIOTYPES if is_coding else NONCODING_BIOTYPES + [None]))
+        sp["protein_id"] = draw(st.one_of(st.none(), IDENT)) if is_coding else None
+        sp["product"] = draw(st.one_of(st.none(), IDENT)) if is_coding else None
+        sp["is_primary_tx"] = draw(st.sampled_from([None, None, None, False, True]))
+    if qualifiers:
+        sp["qualifiers"] = draw(simple_qualifiers())
+    return sp
+
+
+@st.composite
+def feature_spec(draw, max_blocks=4, max_len=10, strand=None, start_min=0, start_max=8, with_ids=True, qualifiers=True):
+    blocks = draw(layout(max_k=max_blocks, allow_empty=False, allow_adjacent=False, allow_overlap=False, max_len=max_len, max_gap=6, max_start=start_max))
+    if start_min:
+        blocks = [[s + start_min, e + start_min] for s, e in blocks]
+    sp = {"blocks": blocks, "strand": strand or draw(st.sampled_from(["+", "-"]))}
+    if with_ids:
+        sp["feature_name"] = draw(st.one_of(st.none(), IDENT))
+        sp["feature_id"] = draw(st.one_of(st.none(), IDENT))
+        sp["feature_types"] = draw(st.one_of(st.none(), st.lists(st.sampled_from(["promoter", "enhancer", "repeat", "misc_feature", "site"]), min_size=1, max_size=2, unique=True)))
+        sp["is_primary_feature"] = draw(st.sampled_from([None, None, None, False, True]))
+    if qualifiers:
+        sp["qualifiers"] = draw(simple_qualifiers())
+    return sp
